@@ -314,6 +314,53 @@ func runC17(w *World, r *Report) {
 		r.ok("list-update-is-iteration-local", "none", "-", "no list is written inside a loop")
 	}
 
+	// once the transaction entry is written, every address of the transaction gets its list entry unless the cache itself
+	// fails: a refusal decided from the content or size of a list at that point leaves one party listed and the other not
+	r.rule("listing-not-refused-after-the-entry-is-stored", "in SaveAwaitedTransaction an iteration of the loop over the two addresses reaches the next one without writing the list only on the failure edge of a cache call (or for an empty key): no data-dependent skip", 1)
+	if sv := w.Func("cache", "Hippocampus", "SaveAwaitedTransaction"); sv != nil {
+		var cut []Edge
+		instrsOf(sv, func(in ssa.Instruction) {
+			if c, ok := in.(ssa.CallInstruction); ok && memCall(c) != "" {
+				cut = append(cut, failErrNonNil(c)...)
+			}
+		})
+		for _, b := range sv.Blocks {
+			for i := range b.Succs {
+				for _, ft := range edgeFacts(Edge{b, i}) {
+					if ft.kind == fEq {
+						for _, v := range []ssa.Value{ft.x, ft.y} {
+							if k, ok := v.(*ssa.Const); ok && k.Value != nil && k.Value.ExactString() == `""` {
+								cut = append(cut, Edge{b, i})
+							}
+						}
+					}
+				}
+			}
+		}
+		nLoops := 0
+		for _, hdr := range sv.Blocks {
+			if hdr.Comment != "rangeindex.loop" || len(hdr.Succs) != 2 {
+				continue
+			}
+			nLoops++
+			skipped := 0
+			walkFrom(nil, hdr.Succs[0], edgeSet(cut), func(x ssa.Instruction) bool {
+				if c, ok := x.(ssa.CallInstruction); ok && memCall(c) == "Set" {
+					return true
+				}
+				if x.Block() == hdr {
+					skipped++
+					return true
+				}
+				return false
+			})
+			r.check(skipped == 0, "listing-not-refused-after-the-entry-is-stored", "SaveAwaitedTransaction/address-loop", w.Pos(sv.Pos()), "each address is listed unless the cache fails", fmt.Sprintf("%d ways to the next address without writing the list that are not cache failures", skipped))
+		}
+		if nLoops == 0 {
+			r.ok("listing-not-refused-after-the-entry-is-stored", "SaveAwaitedTransaction/no-loop", w.Pos(sv.Pos()), "the addresses are not handled in a loop")
+		}
+	}
+
 	// the awaiting index owns its key space: nothing else in the cache writes under an index key
 	r.rule("index-keys-private", "every write to the cache under a key built by encodeAddressKey / encodeTrxKey sits in the awaiting-index functions, and those functions write under no other keys (the balance entries share the cache: a shared key would let one clobber the other)", 6)
 	indexFns := map[string]bool{"SaveAwaitedTransaction": true, "RemoveAwaitedTransaction": true, "ReadTransactions": true}
